@@ -132,6 +132,7 @@ impl Property for C05 {
                     1 => a.push(AStep::BadQueued(vec![b("GET")])), // wrong arity
                     2 => a.push(AStep::Nested(vec![b("MULTI")])),
                     3 => a.push(AStep::Nested(vec![b("WATCH"), g.key(src)])),
+                    4 if src.chance(1, 3) => a.push(AStep::Body(vec![b("UNWATCH")])), // queued like any other command
                     _ => a.push(AStep::Body(gen1(src, &mut g))),
                 }
             }
